@@ -36,8 +36,9 @@ def fc_type(rng, abstract_ids, depth=0):
     if r < 0.72:
         return ("ann", "str", ("varRange", rng.sample(["x", "y", "z"], rng.randint(1, 2))))
     if r < 0.80:
-        lo = rng.randint(0, 1) if False else 1
-        return ("ann", ("list", fc_type(rng, abstract_ids, 1)), ("listSize", lo, lo + rng.randint(0, 1)))
+        lo = 1
+        inner = fc_type(rng, abstract_ids, 1) if rng.random() < 0.6 else rng.choice(["bool", ("ann", "int", ("intRange", 0, rng.randint(0, 2)))])
+        return ("ann", ("list", inner), ("listSize", lo, lo + rng.randint(0, 1)))
     if r < 0.86:
         return ("ann", ("list", fc_type(rng, abstract_ids, 1)), ("listSize", 0, 1))   # possibly empty: the known C05 finding
     if r < 0.92:
@@ -108,12 +109,14 @@ def simple_recursive(spec, g, b) -> bool:
 
 
 def rec_spec(rng):
-    na = rng.randint(1, 2)
-    classes = [gram.ClassSpec(f"A{i}", True, None) for i in range(na)]
+    na = rng.randint(1, 3)
+    # (abstract types may be nested: a nested abstract type is itself an alternative of its parent)
+    classes = [gram.ClassSpec(f"A{i}", True, None if i == 0 else rng.choice([None, 0, i - 1])) for i in range(na)]
     considered = []
     for a in range(na):
-        classes.append(gram.ClassSpec(f"L{len(classes)}", False, a, []))
-        considered.append(len(classes) - 1)
+        if classes[a].parent is None or rng.random() < 0.5:
+            classes.append(gram.ClassSpec(f"L{len(classes)}", False, a, []))
+            considered.append(len(classes) - 1)
         for _ in range(rng.randint(1, 2)):
             k = rng.randint(1, 2)
             fs = [(f"f{j}", ("cls", rng.randrange(na))) for j in range(k)]
@@ -145,7 +148,12 @@ def one(h: Harness, spec, limit):
                     n += 1
                     progs.add(sx(zero_meta(gram.canon(v, b))))
             except InfraError:
+                # the decision tree is too large to enumerate: the programs reached so far are still judged
+                # for membership in the bounded language (level B); completeness is not
                 h.count("decision-tree-too-large")
+                for p in sorted(progs)[:40]:
+                    h.holds(f"create_genotype[{kind}]", "reachable-program-outside-bounded-language", ["prop_in_language", line_spec, d, parse_sx(p)],
+                            f"{kind} at depth {d} produced {p[:160]}, not a well-typed program of depth <= {d}", [sx(line_spec), d, p])
                 return
             except RecursionError:
                 return
@@ -214,6 +222,15 @@ def corpus():
         # nested abstract layer with alternatives of different depth, bounded non-empty list
         gram.Spec([C("A0", True, None), C("A1", True, 0), C("L", False, 0, [("v", "bool")]), C("M", False, 1, [("x", ("cls", 0))]),
                    C("N", False, 1, []), C("Xs", False, 0, [("xs", ("ann", ("list", ("cls", 1)), ("listSize", 1, 2)))])], 0, [2, 3, 4, 5, 1]),
+        # nested abstract type whose only production is recursive (Expr -> Lit | Neg | BinOp, BinOp -> Add)
+        gram.Spec([C("A0", True, None), C("A1", True, 0), C("Lit", False, 0, []), C("Neg", False, 0, [("e", ("cls", 0))]),
+                   C("Add", False, 1, [("l", ("cls", 0)), ("r", ("cls", 0))])], 0, [2, 3, 4]),
+        # size-refined lists whose elements are refined themselves / are lists
+        gram.Spec([C("A0", True, None), C("Bag", False, 0, [("xs", ("ann", ("list", ("ann", "int", ("intRange", 0, 2))), ("listSize", 1, 2)))]),
+                   C("Grid", False, 0, [("rows", ("ann", ("list", ("ann", ("list", "bool"), ("listSize", 1, 1))), ("listSize", 1, 2)))])], 0, [1, 2]),
+        # possibly-empty list at the depth frontier (the open finding's witness)
+        gram.Spec([C("A0", True, None), C("L", False, 0, []),
+                   C("P", False, 0, [("xs", ("ann", ("list", ("cls", 0)), ("listSize", 0, 1))), ("k", ("ann", "int", ("intRange", 0, 1)))])], 0, [1, 2]),
         # refined leaves
         gram.Spec([C("A0", True, None), C("K", False, 0, [("k", ("ann", "int", ("intRange", 0, 2))), ("s", ("ann", "str", ("varRange", ["x", "y"])))]),
                    C("U", False, 0, [("u", ("union", ("cls", 0), ("ann", "int", ("intList", [7, 9]))))])], 0, [1, 2]),
